@@ -30,3 +30,16 @@ Theorem C17_percentages_not_decisive :
   exists n u m, counts_range n u m /\ u < n /\ m = 0 /\ pct u n = pct n n /\ pct 1 n = pct 0 n.
 Proof. exact C17_pct_not_decisive. Qed.
 Print Assumptions C17_percentages_not_decisive.
+
+(* ---- tie: profiler/profiler.py as REGENERATED from the source on this run (Gen/ProfilerGen.v over
+   Model/ProfFrame.v; str(float) is a parameter) equals the model's result rendered as strings, error
+   cases included, and satisfies the C17 clauses for all 1 <= n < 2^31 *)
+From SSJ Require Import Frame ProfFrame ProfilerGen ProfilerRefineUniq ProfilerRefineBase ProfilerRefine ProfilerRefineModel ProfilerGenC17.
+Theorem generated_profiler_refines_model :
+  ltac:(let t := type of profile_table_for_join_rows_refines_model in exact t).
+Proof. exact profile_table_for_join_rows_refines_model. Qed.
+Print Assumptions generated_profiler_refines_model.
+Theorem generated_profiler_C17 :
+  ltac:(let t := type of C17_generated in exact t).
+Proof. exact C17_generated. Qed.
+Print Assumptions generated_profiler_C17.
